@@ -22,13 +22,15 @@ Arities(e) ==
     [] OTHER          -> 1..5
 
 PreMarkers(e) ==
-  CASE e \in {"semver", "cargo", "npm", "hex", "golang", "nuget", "conan"} -> {"-alpha", "-alpha.1", "-rc1", "-rc.1", "-0"}
+  \* known keywords and free-form words no keyword table lists (nightly, preview, M1, x86): in these ecosystems any
+  \* identifier after the hyphen makes a pre-release
+  CASE e \in {"semver", "cargo", "npm", "hex", "golang", "nuget", "conan"} -> {"-alpha", "-alpha.1", "-rc1", "-rc.1", "-0", "-nightly", "-preview.1", "-M1", "-x86"}
     [] e = "maven"      -> {"-alpha", "-alpha-1", "-rc1", "-SNAPSHOT", ".rc1", "-M1", "-beta-2", "-RC2"}
     [] e = "apache"     -> {"-alpha", "-beta1", "-RC1", "-M1", "-SNAPSHOT", "-dev"}
-    [] e = "github"     -> {"-alpha", "-beta.1", "-rc.1", "-rc1", ".rc1"}
+    [] e = "github"     -> {"-alpha", "-beta.1", "-rc.1", "-rc1", ".rc1", "-pre1", "-M1", "-nightly", "-preview.1", "-b1", "-SNAPSHOT", ".dev1"}
     [] e = "mattermost" -> {"-rc1", "-rc2"}
     [] e = "composer"   -> {"-alpha", "-alpha1", "-beta1", "-RC1", "-rc1", "-beta.1", "-dev"}
-    [] e = "gem"        -> {"-alpha", ".pre", ".beta", ".rc1", ".rc.1", ".a"}
+    [] e = "gem"        -> {"-alpha", ".pre", ".beta", ".rc1", ".rc.1", ".a", ".nightly", "-java", ".x86"}
     [] e = "pypi"       -> {"a1", "b2", "rc1", ".rc1", ".dev1", "alpha1", "c1"}
     [] e = "debian"     -> {"~rc1", "~", "~~", "~1"}
     [] e = "rpm"        -> {"~rc1", "~", "~1"}
